@@ -148,6 +148,46 @@ def lost_check(before, after, t):
         return f"edit {':'.join(t)} on {before} lost {missing} (result {after})"
     return None
 
+def mulstr(a, b):
+    T = {"I": 0, "X": 1, "Z": 2, "Y": 3}
+    R = "IXZY"
+    return "".join(R[T[x] ^ T[y]] for x, y in zip(a, b))
+
+def effect_check(before, after, t):
+    """the other half of 'holding the same strings': an edit adds no string other than the one it names, and
+    remove / delete-by-index really take out the one they name (multisets, old strings padded to the new length)"""
+    n = max((len(s) for s in after), default=0)
+    old = {}
+    for s in before:
+        s = padto(s, n)
+        old[s] = old.get(s, 0) + 1
+    new = {}
+    for s in after:
+        new[s] = new.get(s, 0) + 1
+    gained = []
+    for s, k in new.items():
+        if k > old.get(s, 0):
+            gained += [s] * (k - old.get(s, 0))
+    allowed = None
+    if t[0] == "app": allowed = padto(t[1], n)
+    elif t[0] in ("ins", "rep"): allowed = padto(t[2], n)
+    elif t[0] == "con" and len(t[1]) == len(t[2]): allowed = padto(mulstr(t[1], t[2]), n)
+    if len(gained) > (1 if allowed is not None else 0) or (gained and gained[0] != allowed):
+        return f"edit {':'.join(t)} on {before} added {gained} (result {after})"
+    if t[0] == "del":
+        try:
+            i = int(t[1])
+            exp = list(before); del exp[i]
+        except IndexError:
+            exp = None
+        if exp is not None and after != exp:
+            return f"edit del:{t[1]} on {before} gives {after}, the collection without its member number {t[1]} is {exp}"
+    if t[0] == "rem" and t[1] in before:
+        exp = list(before); exp.remove(t[1])
+        if after != exp:
+            return f"edit rem:{t[1]} on {before} gives {after}, the collection without that member is {exp}"
+    return None
+
 def evaluate(line: str):
     """replays the history; returns None or a description of the first way the implementation violates C10"""
     init, ops = ops_of(line)
@@ -185,7 +225,7 @@ def evaluate(line: str):
             except Exception:
                 pass
             after = names(c)
-            why = lost_check(before, after, t)
+            why = lost_check(before, after, t) or (effect_check(before, after, t) if t[0] not in ("copy", "ccopy") else None)
             if why:
                 return why
             if len(set(len(s) for s in after)) > 1:
